@@ -82,7 +82,7 @@ theorem channels_independent (m m' : MSys) (ev : MEvent) (i : Nat) (h : m.step e
         refine ⟨.app x e, ?_⟩
         have h1 : Channel.step ((m.proj j).ep x) e.toEv = .ok r := hr
         simp only [Sys.step, h1]
-        have := proj_apply_same m x j ((m.hist x j).recordApp e) r m.link
+        have := proj_apply_same m x j ((m.hist x j).recordApp e (m.ep x j)) r m.link
         simp only at this
         rw [this]
         rfl
@@ -106,7 +106,7 @@ theorem channels_independent (m m' : MSys) (ev : MEvent) (i : Nat) (h : m.step e
             simp [MSys.proj, hl, chanMsgs]
           have h1 : Channel.step ((m.proj j).ep x) (.recv msg) = .ok r := hr
           simp only [Sys.step, hl', h1]
-          have := proj_apply_same m x j ((m.hist x j).recordRecv msg) r (upd m.link x rest)
+          have := proj_apply_same m x j ((m.hist x j).recordRecv msg (m.ep x j)) r (upd m.link x rest)
           simp only at this
           rw [this]
           congr 2
